@@ -9,7 +9,7 @@ BUDGET = {"quick": 900, "thorough": 25000}
 ALARM_S = 900
 RULE = ("catalogue models (SIR, SIR/N, SEIR, SIS, SIR with births and deaths, Lotka-Volterra, FitzHugh, linear chain, "
         "additive-parameter ODE, logistic) and bounded seeded random models x parameters x time grids (uniform / non-uniform, "
-        "array / list / tuple / scalar) x entry point {integrate, solve_determ, integrate2, integrateFuncJac} x method "
+        "array / list / tuple / scalar, float or integer dtype) x initial time (integer or fractional; numpy, float or int typed) x initial state as array / list / tuple / integer array x entry point {integrate, solve_determ, integrate2, integrateFuncJac} x method "
         "{None, lsoda, vode, ivode, dopri5, dop853} x full_output x includeOrigin x I-seam buffer policy {native, fresh, "
         "reuse}; non-trivial = some solve returned >= 3 rows whose reference values differ pairwise by > 100 x tolerance; "
         "distinct = distinct case digests")
@@ -36,7 +36,9 @@ def generate(seed, tier):
             continue
         env, batch = solver.env_for(S, tier)
         return {"engine": "solver", "problem": name, "model": model, "theta": theta, "x0": x0, "t0": t0,
-                "env": env, "ops": ops, "batch": batch}
+                "env": env, "ops": ops, "batch": batch,
+                "x0_as": rng.choice(["array", "array", "list", "tuple", "int_array"]),
+                "t0_as": rng.choice(["numpy", "float", "int"])}
     raise core.HarnessError("no C02 case")
 
 
